@@ -2,7 +2,7 @@ open Model
 open Util
 open G_val
 (* B group — blocks by name; see harness/cpp/drv_blk.inc.  In the model a block is a value: copies share nothing. *)
-let g_blk : (string, blk) Hashtbl.t = Hashtbl.create 16
+let g_blk = G_exp.g_blk
 let reset () = Hashtbl.reset g_blk
 let fields = function VR l -> l | _ -> []
 
@@ -59,6 +59,17 @@ let cmd_blk (t : string list) =
          let ti = (match o with "nr" -> T_nr | "ip" -> T_ip | "ct" -> T_ct | _ -> T_mmd) in
          let (tb', ix) = add_to b.b_tb ti v in
          Hashtbl.replace g_blk n { b with b_tb = tb' }; out ("r " ^ dec_of_n ix)
+       | "sig" | "qrr" | "rr" | "qlist" | "rrlist" ->
+         let (v, _) = parse_v rest in
+         let ti = (match o with "sig" -> T_sig | "qrr" -> T_qrr | "rr" -> T_rr | "qlist" -> T_qlist | _ -> T_rrlist) in
+         let (tb', ix) = add_to b.b_tb ti v in
+         Hashtbl.replace g_blk n { b with b_tb = tb' }; out ("r " ^ dec_of_n ix)
+       | "qritem" | "mmitem" | "aecitem" ->
+         let (sv, r1) = parse_ov rest in
+         let (iv, _) = parse_v r1 in
+         let f = match o with "qritem" -> add_qr_item | "mmitem" -> add_mm_item | _ -> add_aec_item in
+         let (b', full) = f (fields iv) sv b in
+         Hashtbl.replace g_blk n b'; out (if full then "b 1" else "b 0")
        | "destroy" -> Hashtbl.remove g_blk n; out "ok"
        | "clear" -> Hashtbl.replace g_blk n (blk_clear b); out "ok"
        | "dump" ->
